@@ -41,14 +41,21 @@ def errName : Err → String
   | .nameError => "NameError"
   | .typeError => "TypeError"
 
-def run (prog : List Stmt) (ctx : Env) : J :=
-  match evaluate prog ctx with
+def resJ (ctx : Env) (r : Except Err (Option Res)) : J :=
+  match r with
   | .error e => .obj [("outcome", .str "error"), ("error", .str (errName e))]
   | .ok none => .obj [("outcome", .str "empty")]
   | .ok (some r) =>
     .obj [("outcome", .str "ok"), ("result", valToJ r.result),
           ("vars", .arr ((erase resultKey (outputs ctx r.env)).map fun p => .arr [.str p.1, valToJ p.2])),
           ("stdout", .arr (r.out.map valToJ))]
+
+def run (prog : List Stmt) (ctx : Env) : J := resJ ctx (evaluate prog ctx)
+
+def runFull (explicit : Option PermSet) (slot : Slot) (prog : List Stmt) (ctx : Env) : J :=
+  match evaluateFull explicit slot prog ctx with
+  | .rejected l => .obj [("outcome", .str "rejected"), ("line", .int l)]
+  | .ran r => resJ ctx r
 
 end TailJ
 
@@ -101,7 +108,10 @@ def handle (j : J) : J :=
     | none => bad "split"
   | some "tail" =>
     match (j.getArr? "prog").bind (·.mapM TailJ.stmtOfJ), (j.get? "ctx").bind TailJ.envOfJ with
-    | some prog, some ctx => TailJ.run prog ctx
+    | some prog, some ctx =>
+      match (j.get? "explicit").bind optPermsOfJ, (j.getArr? "scopes").bind (·.mapM permsOfJ) with
+      | some ex, some scopes => TailJ.runFull ex (scopeNest none scopes) prog ctx
+      | _, _ => TailJ.run prog ctx
     | _, _ => bad "tail"
   | some "tables" =>
     .obj [("gate", .obj (allKinds.filterMap fun k =>
